@@ -341,3 +341,190 @@ def _search_real(self, engine):
 
 
 _SnapCount.search_real = _search_real
+
+
+# ---- inter_event_time_distribution (C17, second half): the histogram of gaps between consecutive events of the stream ------------------
+#
+# inter_event_time_distribution()        (u None)      modular against the verified contract of stream_interactions (chronological
+#                                                       enumeration e_0 .. e_{n-1} of the logged events, each once)
+#   ensures  Mass(result) = n - 1 (0 when n = 0)        Mass(d) := sum of the values of d   (total mass of the histogram)
+#            WSum(result) = time(e_{n-1}) - time(e_0)   WSum(d) := sum over the keys k of k * d[k]   (0 when n = 0)
+#            no exception; the graph is not modified
+# inter_event_time_distribution(u)       (v None)      the same for the sub-sequence of the events that involve u:
+#            Mass = #u - 1 (0 when #u = 0),  WSum = time of the last event involving u - time of the first one
+#            (#u, first_u, last_u are defined by recursion over the positions of the stream; the instance for the position being
+#            visited is supplied at each step)
+# Mass / WSum are uninterpreted functions of the histogram with their defining equations emitted at every store (pyvc/accmodel.py).
+
+from pyvc.accmodel import VIntDict, AIB, AII          # noqa: E402
+from .stream import StreamInteractions          # noqa: E402
+
+
+class InterEventTimes(Contract):
+    props = ('C17',)
+
+    def __init__(self, cls, bound_n=None):
+        self.cls = cls
+        self.directed = cls == 'DynDiGraph'
+        self.mod = 'dyndigraph' if self.directed else 'dyngraph'
+        self.key = '%s::%s.inter_event_time_distribution' % (self.mod, cls)
+
+    def variants(self):
+        return [{'u': 'none'}, {'u': 'node'}]
+
+    def uses(self, eng):
+        return [StreamInteractions(self.cls)]
+
+    def reads(self):
+        return [StreamInteractions(self.cls).key]
+
+    def setup(self, ctx, variant):
+        g = HGraph('self', self.directed, self.cls).havoc('0')
+        ctx.graphs['self'] = g
+        ctx.assume(spec.tte_h(g), 'tte')
+        Mass, WSum = fresh_fun('Mass', AIB, AII, Int), fresh_fun('WSum', AIB, AII, Int)
+        empty = VIntDict()
+        ctx.assume(z3.And(Mass(empty.has, empty.val) == 0, WSum(empty.has, empty.val) == 0))
+        ctx.hist_sums = (Mass, WSum)
+        u = fresh('u', Node) if variant['u'] == 'node' else None
+        # ghost recursion over the stream positions for the per-node variant
+        cnt, first, last = fresh_fun('cnt_u', Int, Int), fresh_fun('first_u', Int, Int), fresh_fun('last_u', Int, Int)
+        ctx.assume(cnt(0) == 0)
+        c = Call(g=g, pre=g.snapshot(), u=u, Mass=Mass, WSum=WSum, cnt=cnt, first=first, last=last,
+                 argv=[VGraph(g)] + ([VNode(u)] if u is not None else []), kwv={})
+        ctx.iet = c
+
+        def override(name, v, tag):
+            if v.kind == 'dict' and not v.pairs and not v.esc and getattr(v, 'symset', None) is None:
+                return VIntDict().havoc(tag)
+            if v.kind == 'none':
+                # the previous event (None before the first one): an arbitrary event tuple, only read once one was stored
+                from pyvc.sym import Op
+                return VTuple([VNode(fresh('pa' + tag, Node)), VNode(fresh('pb' + tag, Node)), VOp(fresh('pop' + tag, Op)), VInt(fresh('pt' + tag, Int))])
+            return None
+        ctx.havoc_override = override
+        return c
+
+    @staticmethod
+    def _hist(env):
+        vs = [v for v in env.values() if getattr(v, 'kind', None) == 'intdict']
+        if vs:
+            return vs[0]
+        return VIntDict()
+
+    def loop_specs(self):
+        def prev_time(L):
+            """time of the remembered previous event: the last component of the local that holds an event tuple"""
+            cands = [v for n_, v in L.env.items() if getattr(v, 'kind', None) == 'tuple' and len(v.items) == 4 and v.items[3].kind == 'int'
+                     and n_ not in L.tnames]
+            if len(cands) != 1:
+                raise Undecided('expected one local holding the previous event')
+            return cands[0].items[3].z
+
+        def flag(L):
+            bs = [v for n_, v in L.env.items() if getattr(v, 'kind', None) == 'bool' and n_ not in L.tnames]
+            if len(bs) != 1:
+                raise Undecided('expected one boolean flag among the locals')
+            return bs[0].z
+
+        def inv(L):
+            c = L.ctx.iet
+            it = L.iterable
+            if it.kind != 'seq' or 'time' not in it.meta:
+                raise Undecided('the loop does not run over the event stream')
+            tm, key = it.meta['time'], it.meta['key']
+            d = self._hist(L.env)
+            k = L.k
+            M, W = c.Mass(d.has, d.val), c.WSum(d.has, d.val)
+            if c.u is None:
+                out = [('flag_says_whether_an_event_was_seen', flag(L) == (k == 0)),
+                       ('mass_is_events_minus_one', M == z3.If(k >= 1, k - 1, 0)),
+                       ('weighted_sum_is_last_minus_first', W == z3.If(k >= 1, tm(k - 1) - tm(0), 0))]
+                if not (L.env is L.env0) and any(getattr(v, 'kind', None) == 'tuple' for v in L.env.values()):
+                    out.append(('previous_event_is_the_last_one_visited', z3.Implies(k >= 1, prev_time(L) == tm(k - 1))))
+                return out
+            n_u = c.cnt(k)
+            return [('flag_says_whether_an_event_of_u_was_seen', flag(L) == (n_u >= 1)),
+                    ('count_is_non_negative', n_u >= 0),
+                    ('mass_is_events_of_u_minus_one', M == z3.If(n_u >= 1, n_u - 1, 0)),
+                    ('weighted_sum_is_last_minus_first_of_u', W == z3.If(n_u >= 1, c.last(k) - c.first(k), 0)),
+                    ('previous_event_is_the_last_event_of_u', z3.Implies(n_u >= 1, prev_time(L) == c.last(k)))]
+
+        def step_facts(L):
+            c = L.ctx.iet
+            if c.u is None:
+                return []
+            from pyvc.sym import ea, eb
+            it = L.iterable
+            tm, key = it.meta['time'], it.meta['key']
+            k = L.k
+            match = z3.Or(ea(key(k)) == c.u, eb(key(k)) == c.u)
+            return [c.cnt(k + 1) == c.cnt(k) + z3.If(match, 1, 0),
+                    c.last(k + 1) == z3.If(match, tm(k), c.last(k)),
+                    c.first(k + 1) == z3.If(z3.And(match, c.cnt(k) == 0), tm(k), c.first(k))]
+        return {'seq/1': LoopSpec(inv, modifies={}, assumes=step_facts, tags=('C17',))}
+
+    def finish(self, ctx, c, outcome):
+        T = ('C17',)
+        if outcome[0] == 'raise':
+            return self.forbid(ctx, 'C17.inter_event.no_exception.%s' % outcome[1], tags=T, note=outcome[2])
+        r = outcome[1]
+        if r.kind == 'dict' and not r.pairs:
+            r = VIntDict()
+        if r.kind != 'intdict':
+            return self.shape(ctx, 'C17.inter_event.returns_a_histogram', tags=T, note='result kind %s' % r.kind)
+        seq = getattr(ctx, 'gi_seq', None)
+        if seq is None:
+            return self.shape(ctx, 'C17.inter_event.reads_the_stream', tags=T)
+        n, tm = seq.n, seq.meta['time']
+        M, W = c.Mass(r.has, r.val), c.WSum(r.has, r.val)
+        if c.u is None:
+            ctx.oblige('C17.inter_event.total_mass_is_events_minus_one', M == z3.If(n >= 1, n - 1, 0), tags=T)
+            ctx.oblige('C17.inter_event.weighted_sum_is_last_minus_first_event_time', W == z3.If(n >= 1, tm(n - 1) - tm(0), 0), tags=T)
+        else:
+            nu = c.cnt(n)
+            ctx.oblige('C17.inter_event.node.total_mass_is_events_of_the_node_minus_one', M == z3.If(nu >= 1, nu - 1, 0), tags=T)
+            ctx.oblige('C17.inter_event.node.weighted_sum_is_last_minus_first_event_time_of_the_node', W == z3.If(nu >= 1, c.last(n) - c.first(n), 0), tags=T)
+        for comp, f in spec.state_unchanged(c.g, c.pre).items():
+            ctx.oblige('C17.inter_event.modifies_nothing.%s' % comp, f, tags=T)
+
+
+def run_iet_case(cls, history, u):
+    """the real inter_event_time_distribution(u) against total mass / weighted sum computed from the real stream; {clause: detail}"""
+    from bounded.core import run_history
+    history = [tuple(tuple(y) if isinstance(y, list) else y for y in c) for c in history]
+    G, M, outs = run_history(cls, True, history, probing=False)
+    ev = [e for e in G.stream_interactions() if u is None or e[0] == u or e[1] == u]
+    try:
+        d = G.inter_event_time_distribution() if u is None else G.inter_event_time_distribution(u)
+    except Exception as ex:
+        return {'C17.inter_event.no_exception.%s' % type(ex).__name__: repr(ex)}
+    mass, wsum = sum(d.values()), sum(k * v for k, v in d.items())
+    exp_m = max(len(ev) - 1, 0)
+    exp_w = (ev[-1][3] - ev[0][3]) if ev else 0
+    pre = 'C17.inter_event.' + ('' if u is None else 'node.')
+    out = {}
+    if mass != exp_m:
+        out[pre + ('total_mass_is_events_minus_one' if u is None else 'total_mass_is_events_of_the_node_minus_one')] = 'mass %r, %d event(s): %r' % (mass, len(ev), d)
+    if wsum != exp_w:
+        out[pre + ('weighted_sum_is_last_minus_first_event_time' if u is None else 'weighted_sum_is_last_minus_first_event_time_of_the_node')] = \
+            'weighted sum %r, first/last event times %r: %r' % (wsum, (ev[0][3], ev[-1][3]) if ev else None, d)
+    return out
+
+
+def _search_iet(self, engine):
+    import itertools
+    from bounded.core import histories, run_history, jsonable
+    for cls, rem, h in itertools.islice(histories('quick', 1, classes=(self.cls,), modes=(True,)), 500):
+        G, M, outs = run_history(cls, rem, h, probing=False)
+        if any(o[0] != o[1] for o in outs) or not M.keys():
+            continue
+        for u in [None] + list(G.nodes())[:3]:
+            v = run_iet_case(cls, h, u)
+            if v:
+                return {'violated': v, 'call': '%s.inter_event_time_distribution(%s) after %r' % (cls, '' if u is None else repr(u), h),
+                        'replayer': {'module': 'contracts.stats', 'function': 'run_iet_case', 'args': [cls, jsonable(h), u]}}
+    return None
+
+
+InterEventTimes.search_real = _search_iet
